@@ -105,6 +105,9 @@ fn scenario(cfg: &RunCfg, with_cache: bool, max_reqs: u32, max_clients: u32) -> 
             }
         }
     };
+    // (virtual time may pass at any step, so a timer a change introduces can fire mid-exchange)
+    eng.weights.early_timer_64 = gen::pick(&[0u32, 0, 4]);
+
     eng.weights.job_finish = *[1u32, 4, 12].get(gen::below(3) as usize).unwrap();
     eng.weights.client_step = *[2u32, 6, 20].get(gen::below(3) as usize).unwrap();
     let mut all_reqs: Vec<Vec<Req>> = Vec::new();
@@ -212,6 +215,9 @@ fn long_lived(cfg: &RunCfg) -> Outcome {
     };
     eng.weights.client_step = gen::pick(&[6u32, 20, 40]);
     eng.weights.poll = gen::pick(&[2u32, 8]);
+    // (a pending timer - the library has none on this path today - may fire while a client
+    // pauses: virtual time can pass at any step)
+    eng.weights.early_timer_64 = gen::pick(&[0u32, 0, 4]);
     let n = 12 + gen::below(50) as usize;
     let mut reqs = Vec::new();
     let mut total = 0usize;
